@@ -21,7 +21,7 @@ from . import folds as FO
 from . import lists as LS
 from . import enumth as EN
 from . import solth as SO
-from .values import OpaqueTable
+from .values import OpaqueTable, AbstractKeySet
 
 
 _ARITH_KINDS = None
@@ -607,6 +607,11 @@ class Engine:
             return True
         if isinstance(v, SetVal):
             return v.card != 0
+        if isinstance(v, AbstractKeySet):
+            if getattr(v, "_nonempty", None) is None:
+                self.nfresh += 1
+                v._nonempty = z3.Bool("keyset_nonempty!%d" % self.nfresh)
+            return v._nonempty
         if isinstance(v, (Closure, BoundMethod, ClassRef, Builtin, BuiltinClass)):
             return True
         raise Unsupported("truthiness of %r" % (type(v).__name__,))
@@ -1058,6 +1063,10 @@ class Engine:
             return T.memb(self.as_label(item), container.e)
         if isinstance(container, AssignVal):
             return True
+        if isinstance(container, AbstractKeySet):
+            k = self.as_key(item)
+            self.facts.key(k)
+            return container.pred(k)
         if isinstance(container, (frozenset, set)):
             cs = [self.equals(item, m) for m in container]
             if any(c is True for c in cs):
@@ -2757,6 +2766,10 @@ class Engine:
 
     def ex_SetComp(self, n, fr):
         from . import builtins as B
+        if len(n.generators) == 1:
+            src = self.eval(n.generators[0].iter, fr)
+            if isinstance(src, AbstractKeySet):
+                return AbstractKeySet()      # {f(p) for p in pairs}: some set of keys (f is not looked at)
         return B.eval_comprehension(self, n, fr, "set")
 
     # ------------------------------------------------------------------ specification expressions
